@@ -3,10 +3,7 @@ package main
 import (
 	"fmt"
 	"go/ast"
-	"go/parser"
-	"go/token"
 	"os"
-	"path/filepath"
 	"sort"
 	"strconv"
 	"strings"
@@ -119,136 +116,6 @@ type layoutDecl struct {
 	Cases   []rangeCase
 }
 
-// parseDetermine reads the structure of DetermineBlockType off the source:
-// the outer `switch lenBody`, per arm the body index holding the protocol
-// version and the inner tagless switch of inProtocolRange(...) cases with the
-// block type each returns.  Anything it does not recognise is an error (the
-// translator refuses rather than guesses).
-func parseDetermine() ([]layoutDecl, error) {
-	fset := token.NewFileSet()
-	f, err := parser.ParseFile(fset, filepath.Join(repoDir(), "ledger", "verify_block.go"), nil, 0)
-	if err != nil {
-		return nil, err
-	}
-	var fn *ast.FuncDecl
-	for _, d := range f.Decls {
-		if fd, ok := d.(*ast.FuncDecl); ok && fd.Name.Name == "DetermineBlockType" && fd.Recv == nil {
-			fn = fd
-		}
-	}
-	if fn == nil {
-		return nil, fmt.Errorf("DetermineBlockType not found")
-	}
-	// inProtocolRange must still be the inclusive comparison
-	okRange := false
-	for _, d := range f.Decls {
-		if fd, ok := d.(*ast.FuncDecl); ok && fd.Name.Name == "inProtocolRange" {
-			if len(fd.Body.List) == 1 {
-				if rs, ok := fd.Body.List[0].(*ast.ReturnStmt); ok && len(rs.Results) == 1 {
-					if be, ok := rs.Results[0].(*ast.BinaryExpr); ok && be.Op == token.LAND {
-						l, lok := be.X.(*ast.BinaryExpr)
-						r, rok := be.Y.(*ast.BinaryExpr)
-						if lok && rok && l.Op == token.GEQ && r.Op == token.LEQ &&
-							identName(l.X) == "protoMajor" && identName(l.Y) == "min" &&
-							identName(r.X) == "protoMajor" && identName(r.Y) == "max" {
-							okRange = true
-						}
-					}
-				}
-			}
-		}
-	}
-	if !okRange {
-		return nil, fmt.Errorf("inProtocolRange is no longer `protoMajor >= min && protoMajor <= max`")
-	}
-	var outer *ast.SwitchStmt
-	for _, st := range fn.Body.List {
-		if sw, ok := st.(*ast.SwitchStmt); ok && identName(sw.Tag) == "lenBody" {
-			outer = sw
-		}
-	}
-	if outer == nil {
-		return nil, fmt.Errorf("switch lenBody not found")
-	}
-	var out []layoutDecl
-	for _, st := range outer.Body.List {
-		cc := st.(*ast.CaseClause)
-		if cc.List == nil {
-			continue // default: error
-		}
-		if len(cc.List) != 1 {
-			return nil, fmt.Errorf("outer case with %d expressions", len(cc.List))
-		}
-		ln, err := exprVal(cc.List[0])
-		if err != nil {
-			return nil, err
-		}
-		ld := layoutDecl{Len: ln}
-		// the body index: the (only) body[<lit>] expression of the arm
-		found := false
-		var inner *ast.SwitchStmt
-		for _, s := range cc.Body {
-			ast.Inspect(s, func(n ast.Node) bool {
-				if ix, ok := n.(*ast.IndexExpr); ok && identName(ix.X) == "body" {
-					if v, err := exprVal(ix.Index); err == nil {
-						if found && v != ld.PvIndex {
-							found = false
-							ld.PvIndex = 1 << 40
-						} else {
-							ld.PvIndex, found = v, true
-						}
-					}
-				}
-				if ix, ok := n.(*ast.IndexExpr); ok && identName(ix.X) == "protoVersion" {
-					if v, err := exprVal(ix.Index); err == nil && v == 0 {
-						ld.Nested = true
-					}
-				}
-				return true
-			})
-			if sw, ok := s.(*ast.SwitchStmt); ok && sw.Tag == nil {
-				inner = sw
-			}
-		}
-		if !found || inner == nil {
-			return nil, fmt.Errorf("arm %d: cannot find the protocol version field / inner switch", ln)
-		}
-		for _, ist := range inner.Body.List {
-			ic := ist.(*ast.CaseClause)
-			if ic.List == nil {
-				// default must return an error
-				continue
-			}
-			if len(ic.List) != 1 {
-				return nil, fmt.Errorf("arm %d: case with %d expressions", ln, len(ic.List))
-			}
-			call, ok := ic.List[0].(*ast.CallExpr)
-			if !ok || identName(call.Fun) != "inProtocolRange" || len(call.Args) != 3 || identName(call.Args[0]) != "protoMajor" {
-				return nil, fmt.Errorf("arm %d: case is not inProtocolRange(protoMajor, min, max)", ln)
-			}
-			mn, err1 := exprVal(call.Args[1])
-			mx, err2 := exprVal(call.Args[2])
-			if err1 != nil || err2 != nil {
-				return nil, fmt.Errorf("arm %d: %v %v", ln, err1, err2)
-			}
-			if len(ic.Body) != 1 {
-				return nil, fmt.Errorf("arm %d: case body is not a single return", ln)
-			}
-			rs, ok := ic.Body[0].(*ast.ReturnStmt)
-			if !ok || len(rs.Results) != 2 || identName(rs.Results[1]) != "nil" {
-				return nil, fmt.Errorf("arm %d: case body is not `return <type>, nil`", ln)
-			}
-			ret, err := exprVal(rs.Results[0])
-			if err != nil {
-				return nil, err
-			}
-			ld.Cases = append(ld.Cases, rangeCase{mn, mx, ret})
-		}
-		out = append(out, ld)
-	}
-	return out, nil
-}
-
 func identName(e ast.Expr) string {
 	if id, ok := e.(*ast.Ident); ok {
 		return id.Name
@@ -299,11 +166,14 @@ func gen(out string) error {
 		fmt.Fprintf(&sb, "  mkera %s %s %s %s %s %s%s\n", vh.Str(e.Name), vh.N(e.Id), nlist(e.BlockTypes), vh.N(e.HeaderType), vh.N(e.TxType), pv, sep)
 	}
 	sb.WriteString("].\n\n")
-	lds, err := parseDetermine()
-	if err != nil {
-		return err
+	lds, src, why := armsAndSource()
+	if src == "syntax" {
+		sb.WriteString("(* DetermineBlockType (ledger/verify_block.go), arm by arm in source order; the reading agrees with the\n   real function on every probed header (see arms.go) *)\n")
+	} else {
+		fmt.Fprintf(&sb, "(* DetermineBlockType: no syntactic form recognised (%s).\n   OBSERVED step function: the real function swept over protocol major 0..%d for header body lengths 0..%d;\n   one arm per length that ever answers, one case per maximal run of versions with the same answer *)\n", strings.ReplaceAll(why, "*)", "* )"), probeLimit, probeMaxLen)
 	}
-	sb.WriteString("(* DetermineBlockType (ledger/verify_block.go), arm by arm in source order *)\nDefinition layouts : list layout := [\n")
+	fmt.Fprintf(&sb, "Definition arms_source : string := %s.\nDefinition probe_limit : N := %s.\nDefinition probe_max_len : N := %s.\n", vh.Str(src), vh.N(probeLimit), vh.N(probeMaxLen))
+	sb.WriteString("Definition layouts : list layout := [\n")
 	for i, l := range lds {
 		var cs []string
 		for _, c := range l.Cases {
